@@ -453,6 +453,9 @@ func (immunityComp) Gen(rng *rand.Rand, tier string) [][]string {
 		cross := rng.Intn(3) == 0
 		h := []string{fmt.Sprintf("begin immunity chunks=%d items=%d bytes=%d n=%d cross=%s", chunks, items, nb, n, b01(cross))}
 		nkeys := 4 + rng.Intn(9)
+		// one history in thirty declares sizes at and beyond 2^32 (a legal `int` on the platforms the node runs on): the byte
+		// accounting and the capacity test must not depend on the sizes fitting the limits' own 32-bit type
+		huge := i%30 == 17
 		keys := make([][]byte, nkeys)
 		for j := range keys {
 			keys[j] = []byte{byte(rng.Intn(256)), byte(j)}
@@ -465,6 +468,9 @@ func (immunityComp) Gen(rng *rand.Rand, tier string) [][]string {
 			switch x := rng.Intn(100); {
 			case x < 55:
 				sz := pick(rng, 0, 1, 1, 5, 10, 10, 40, 100, 500)
+				if huge && s%4 == 1 {
+					sz = 4294967296 + pick(rng, 0, 0, 1, 3, 39, 4294967296)
+				}
 				op := "hoa"
 				if rng.Intn(5) == 0 {
 					op = "put"
